@@ -129,6 +129,21 @@ func Execute(dir string, args *gengo.GeneratorArgs, gens ...gengo.Generator) (ou
 	return
 }
 
+// InDir runs fn with the process's working directory set to dir (gengo.NewContext has no directory option); runs of
+// the harness never overlap with it (same lock as Execute). fn may start several Executors of its own.
+func InDir(dir string, fn func()) error {
+	fixture.CleanGoEnv()
+	cwdMu.Lock()
+	defer cwdMu.Unlock()
+	old, _ := os.Getwd()
+	if err := os.Chdir(dir); err != nil {
+		return err
+	}
+	defer os.Chdir(old)
+	fn()
+	return nil
+}
+
 // ---------------------------------------------------------------------------------------
 // scripted generators
 
